@@ -1,17 +1,10 @@
 (* C10: the version 0 bond order block (legacy packs; there is no version 0 writer in the repository): 5 orders per
    2 bytes, one zero bit then five 3-bit fields.  The reader inverts this layout for ALL lists of groups. *)
 From Coq Require Import ZArith List Bool Lia ZifyBool.
-From Model Require Import PyBase Pack PackSpec.
+From Model Require Import PyBase Pack PackSpec PackSpecV0.
 From Proofs Require Import PackBits PackRoundtrip.
 Import ListNotations.
 Open Scope Z_scope.
-
-Definition v0_group_bits (a b c d e : Z) : list bool := false :: bits3 a ++ bits3 b ++ bits3 c ++ bits3 d ++ bits3 e.
-Definition v0_group_bytes (g : Z * Z * Z * Z * Z) : list Z :=
-  let '(a, b, c, d, e) := g in bytes_of_bits (v0_group_bits a b c d e).
-Definition v0_group_orders (g : Z * Z * Z * Z * Z) : list Z := let '(a, b, c, d, e) := g in [a; b; c; d; e].
-Definition v0_group_ok (g : Z * Z * Z * Z * Z) : Prop :=
-  let '(a, b, c, d, e) := g in 0 <= a < 8 /\ 0 <= b < 8 /\ 0 <= c < 8 /\ 0 <= d < 8 /\ 0 <= e < 8.
 
 Definition v0_chk (a b c d e : Z) : bool :=
   match bytes_of_bits (v0_group_bits a b c d e) with
